@@ -13,7 +13,7 @@
     float32, int32, uint32, int64, uint64); Go int / uint are refuted below. *)
 From Coq Require Import ZArith List Bool.
 From OW Require Import IO.Hyperslab IO.H5Store IO.IoOps IO.HyperslabProofs IO.H5StoreProofs IO.IoOpsProofs
-  IO.IoExamples IO.LockCheck IO.LockGraphCheck Gen.LockGraph.
+  IO.IoSeqProofs IO.IoExamples IO.LockCheck IO.LockGraphCheck Gen.LockGraph.
 Import ListNotations.
 Local Open Scope Z_scope.
 
@@ -134,6 +134,28 @@ Theorem C08_create_existing_noop_or_refused : forall V C (cd : codec V C),
 Proof. exact @create_existing. Qed.
 Print Assumptions C08_create_existing_noop_or_refused.
 
+(** Every sequence of Create / Write / WriteSlice / Load (with or without a
+    selection) / Shape on one file refines a simple abstract specification:
+    a map from dataset paths to arrays (plus the set of groups), whose
+    operations are defined per index ([a_step]: WriteSlice = "index in the block
+    ? element of the sub-array : old element", Load with a selection = the
+    in-memory slice, Create of an existing dataset = nothing, a new name is
+    accepted iff no dataset lies on the way and the leaf is new).  Induction
+    over the operation list; [R] relates the store to the specification, and
+    every observation (results, errors, loaded arrays) is the specification's. *)
+Theorem C08_sequences_refine_spec : forall V C (cd : codec V C), codec_exact cd ->
+  forall ops f m,
+  R cd f m -> sops_ok cd m ops ->
+  exists f', io_run_ops cd f (map to_op ops) = (f', snd (a_run cd m ops)) /\ R cd f' (fst (a_run cd m ops)).
+Proof. exact @sequences_refine_spec. Qed.
+Print Assumptions C08_sequences_refine_spec.
+
+Theorem C08_sequences_from_missing_file : forall V C (cd : codec V C), codec_exact cd ->
+  forall ops, sops_ok cd af_empty ops ->
+  exists f', io_run_ops cd None (map to_op ops) = (f', snd (a_run cd af_empty ops)) /\ R cd f' (fst (a_run cd af_empty ops)).
+Proof. exact @sequences_refine_spec_from_nothing. Qed.
+Print Assumptions C08_sequences_from_missing_file.
+
 (** REFUTED for Go int (and uint): the round trip loses the second half of the
     buffer (known finding native-int-width). *)
 Theorem C08_write_load_roundtrip_int_refuted :
@@ -152,6 +174,13 @@ Theorem C08_write_load_roundtrip_uint_refuted :
     io_load uint_codec f' {| h_dataset := s; h_slice := None |} <> IoRet (Some a) false.
 Proof. exact write_load_roundtrip_uint_refuted. Qed.
 Print Assumptions C08_write_load_roundtrip_uint_refuted.
+
+(** Modelling lemma: [createDataset] recurses on strings.Join(paths[1:], "/"),
+    the model on the tail of the component list; they are the same thing. *)
+Theorem C08_model_split_join : forall l, l <> [] -> Forall (fun c => ~ In ch_slash c) l ->
+  split_slash (join_slash l) = l.
+Proof. exact split_join_slash. Qed.
+Print Assumptions C08_model_split_join.
 
 (** ** Lock discipline.
 
@@ -197,6 +226,13 @@ Proof. exact write_then_load. Qed.
 
 Example C08_nonvacuous_hypotheses : codec_exact id_codec /\ plain_name nm_ga [[103]; [97]] /\ arr_wf arr23.
 Proof. exact (conj id_codec_exact (conj nm_ga_plain arr23_wf)). Qed.
+
+Example C08_nonvacuous_sequence : sops_ok id_codec (af_empty (V:=Z)) seq_example
+  /\ snd (a_run id_codec (af_empty (V:=Z)) seq_example)
+      = [ObsUnit (IoRet (Some tt) false); ObsUnit (IoRet (Some tt) false);
+         ObsArr (IoRet (Some {| ha_dims := [2; 2]; ha_elems := [10; 12; 20; 8] |}) false);
+         ObsUnit (IoRet (Some tt) false); ObsShape (IoRet (Some [2; 3]) false)].
+Proof. exact (conj seq_example_ok seq_example_run). Qed.
 
 Example C08_nonvacuous_slice_size : slice_size [0; 5; 2] 10 = Some 3 /\ slice_size [2; 100; 3] 10 = Some 3
   /\ slice_size [10; 12; 1] 10 = Some 0 /\ slice_size [0; 5; 0] 10 = None.
